@@ -110,6 +110,7 @@ inductive SOp (α : Type) where
   | construct (k : Nat) (auto : Bool) (v : α) (r : Option CRef) (prec : α)
   | copy (src dst : Nat)
   | toAuto (src dst : Nat)
+  | toPlain (src dst : Nat)
   | assign (src dst : Nat)
   | setValue (k : Nat) (v : α)
   | setPrecision (k : Nat) (x : α)
@@ -140,6 +141,10 @@ def step (w : SWorld α) : SOp α → SWorld α × POutcome
   | .toAuto src dst =>
     match w.ps src with
     | some p => (w.setP dst { p with auto := true }, .done)
+    | none => (w, .absent)
+  | .toPlain src dst =>
+    match w.ps src with
+    | some p => (w.setP dst { p with auto := false }, .done)
     | none => (w, .absent)
   | .assign src dst =>
     match w.ps src, w.ps dst with
@@ -182,6 +187,7 @@ def erase (w : SWorld α) : SOp α → Option (POp α)
   | .construct k auto v r prec => some (.construct k auto v (w.deref r) prec)
   | .copy s d => some (.copy s d)
   | .toAuto s d => some (.toAuto s d)
+  | .toPlain s d => some (.toPlain s d)
   | .assign s d => some (.assign s d)
   | .setValue k v => some (.setValue k v)
   | .setPrecision k x => some (.setPrecision k x)
